@@ -60,6 +60,38 @@ inline int Compare(const Value& a, const Value& b) {
 
 inline bool Equal(const Value& a, const Value& b) { return Compare(a, b) == 0; }
 
+//! a and b could be values of one type: same kind, tuples of equal arity with same-shaped components,
+//  sets whose elements (of both together) all have one shape. Decided by kinds and sizes only (never
+//  looks at an int32). Used to answer "ill-typed" instead of garbage when the input is not well typed.
+inline bool SameShape(const Value& a, const Value& b) {
+  if (a.kind != b.kind) {
+    return false;
+  }
+  if (a.kind == Value::ELEM) {
+    return true;
+  }
+  if (a.kind == Value::TUPLE) {
+    if (a.items.size() != b.items.size()) {
+      return false;
+    }
+    for (size_t i = 0; i < a.items.size(); ++i) {
+      if (!SameShape(a.items[i], b.items[i])) {
+        return false;
+      }
+    }
+    return true;
+  }
+  const Value* sample = !a.items.empty() ? &a.items[0] : (!b.items.empty() ? &b.items[0] : nullptr);
+  for (const auto* s : { &a, &b }) {
+    for (const auto& e : s->items) {
+      if (!SameShape(*sample, e)) {
+        return false;
+      }
+    }
+  }
+  return true;
+}
+
 inline Value MakeElem(int32_t v) {
   Value r;
   r.kind = Value::ELEM;
